@@ -4,13 +4,8 @@ import (
 	"fmt"
 	"go/types"
 	"math"
-	"os"
-	"os/exec"
-	"path/filepath"
 	"strconv"
 	"strings"
-
-	"golang.org/x/tools/go/ssa"
 )
 
 // parseGetValue parses "((t1 v1) (t2 v2) ...)" into values in order.
@@ -157,137 +152,3 @@ func goLiteral(ty types.Type, val string, strLen int64, strBytes map[int]int64) 
 	return "", false
 }
 
-// buildReplay generates an in-package test calling fn with inputs from the model; returns file content.
-func buildReplay(fn *ssa.Function, inputs []inputDesc, vals []string, o *Obl) (string, bool) {
-	if len(vals) < len(inputs) {
-		return "", false
-	}
-	type fieldVal struct {
-		ty    types.Type
-		val   string
-		slen  int64
-		bytes map[int]int64
-	}
-	byParam := map[string]map[string]*fieldVal{}
-	get := func(p, f string, ty types.Type) *fieldVal {
-		if byParam[p] == nil {
-			byParam[p] = map[string]*fieldVal{}
-		}
-		if byParam[p][f] == nil {
-			byParam[p][f] = &fieldVal{ty: ty, bytes: map[int]int64{}}
-		}
-		return byParam[p][f]
-	}
-	for i, in := range inputs {
-		fv := get(in.param, in.field, in.ty)
-		switch in.kind {
-		case "val":
-			fv.val = vals[i]
-		case "slen":
-			fv.slen, _ = smtInt(vals[i])
-		case "sat":
-			n, _ := smtInt(vals[i])
-			fv.bytes[in.idx] = n
-		}
-	}
-	pkg := fn.Pkg.Pkg
-	qual := func(p *types.Package) string {
-		if p == pkg {
-			return ""
-		}
-		return p.Name()
-	}
-	var args []string
-	var setup []string
-	for _, p := range fn.Params {
-		pt := p.Type()
-		fields := byParam[p.Name()]
-		if ptr, ok := pt.Underlying().(*types.Pointer); ok {
-			if st, ok := ptr.Elem().Underlying().(*types.Struct); ok && fields != nil && len(fields) > 1 {
-				var fs []string
-				for i := 0; i < st.NumFields(); i++ {
-					f := st.Field(i)
-					if fv := fields[f.Name()]; fv != nil {
-						if lit, ok := goLiteral(f.Type(), fv.val, fv.slen, fv.bytes); ok {
-							fs = append(fs, fmt.Sprintf("%s: %s", f.Name(), lit))
-						}
-					}
-				}
-				args = append(args, fmt.Sprintf("&%s{%s}", types.TypeString(ptr.Elem(), qual), strings.Join(fs, ", ")))
-				continue
-			}
-			args = append(args, "nil")
-			continue
-		}
-		if fv := fields[""]; fv != nil {
-			if lit, ok := goLiteral(pt, fv.val, fv.slen, fv.bytes); ok {
-				if _, isNamed := pt.(*types.Named); isNamed {
-					lit = fmt.Sprintf("%s(%s)", types.TypeString(pt, qual), lit)
-				}
-				args = append(args, lit)
-				continue
-			}
-		}
-		// struct value receiver with basic fields, e.g. idxField{i}
-		if st, ok := pt.Underlying().(*types.Struct); ok && fields != nil {
-			_ = st
-		}
-		args = append(args, fmt.Sprintf("*new(%s)", types.TypeString(pt, qual)))
-	}
-	_ = setup
-	call := ""
-	if fn.Signature.Recv() != nil {
-		recvT := types.TypeString(fn.Signature.Recv().Type(), qual)
-		call = fmt.Sprintf("(%s).%s(%s)", recvT, fn.Name(), strings.Join(args, ", "))
-	} else {
-		call = fmt.Sprintf("%s(%s)", fn.Name(), strings.Join(args, ", "))
-	}
-	nres := fn.Signature.Results().Len()
-	lhs := ""
-	if nres > 0 {
-		var rs []string
-		for i := 0; i < nres; i++ {
-			rs = append(rs, fmt.Sprintf("r%d", i))
-		}
-		lhs = strings.Join(rs, ", ") + " := "
-	}
-	var sb strings.Builder
-	fmt.Fprintf(&sb, "package %s\n\nimport (\n\t\"fmt\"\n\t\"math\"\n\t\"testing\"\n)\n\nvar _ = math.Pi\n\n", pkg.Name())
-	fmt.Fprintf(&sb, "// replay of obligation %s\n// %s\nfunc TestVerifReplay(t *testing.T) {\n", o.Name, o.Pos)
-	sb.WriteString("\tdefer func() {\n\t\tif r := recover(); r != nil {\n\t\t\tfmt.Printf(\"REPLAY-PANIC: %v\\n\", r)\n\t\t}\n\t}()\n")
-	fmt.Fprintf(&sb, "\t%s%s\n", lhs, call)
-	if nres > 0 {
-		var rs []string
-		for i := 0; i < nres; i++ {
-			rs = append(rs, fmt.Sprintf("r%d", i))
-		}
-		fmt.Fprintf(&sb, "\tfmt.Printf(\"REPLAY-RETURNED: %s\\n\", %s)\n", strings.Repeat("%#v ", nres), strings.Join(rs, ", "))
-	}
-	sb.WriteString("}\n")
-	return sb.String(), true
-}
-
-// runReplay injects the test with -overlay and runs it against repo.
-func runReplay(repo string, fn *ssa.Function, content string, workDir string) string {
-	os.MkdirAll(workDir, 0o755)
-	testFile := filepath.Join(workDir, "zz_verif_replay_test.go")
-	os.WriteFile(testFile, []byte(content), 0o644)
-	// package directory of fn
-	pos := fn.Prog.Fset.Position(fn.Pos())
-	pkgDir := filepath.Dir(pos.Filename)
-	ov := fmt.Sprintf("{\"Replace\": {%q: %q}}", filepath.Join(pkgDir, "zz_verif_replay_test.go"), testFile)
-	ovFile := filepath.Join(workDir, "overlay.json")
-	os.WriteFile(ovFile, []byte(ov), 0o644)
-	cmd := exec.Command("go", "test", "-overlay", ovFile, "-vet=off", "-count=1", "-timeout", "60s", "-run", "^TestVerifReplay$", "-v", ".")
-	cmd.Dir = pkgDir
-	cmd.Env = append(os.Environ(), "GOFLAGS=-mod=mod", "GOPROXY=off", "GOSUMDB=off")
-	out, _ := cmd.CombinedOutput()
-	var keep []string
-	for _, l := range strings.Split(string(out), "\n") {
-		if strings.HasPrefix(l, "REPLAY-") || strings.Contains(l, "cannot") || strings.Contains(l, "undefined") || strings.HasPrefix(l, "FAIL") || strings.Contains(l, "panic:") {
-			keep = append(keep, l)
-		}
-	}
-	_ = repo
-	return strings.Join(keep, " | ")
-}
